@@ -1,12 +1,11 @@
 #!/bin/bash
 # usage: tools/mkscratch.sh <name>   -> /tmp/bw-<name>/{repo,harness,target}
-# A private copy of /repo (git clone of HEAD + working-tree changes) and of the harness pointed at
+# A private copy of /repo (git clone of HEAD) and of the harness pointed at
 # it, with its own target dir. Remove with: rm -rf /tmp/bw-<name>
 set -e
 N="$1"; D="/tmp/bw-$N"
 rm -rf "$D"; mkdir -p "$D"
 git clone -q /repo "$D/repo"
-(cd /repo && git diff HEAD) | (cd "$D/repo" && git apply --allow-empty 2>/dev/null || true)
 rsync -a --exclude target /verif/harness/ "$D/harness/"
 sed -i "s#path = \"/repo\"#path = \"$D/repo\"#" "$D/harness/Cargo.toml"
 sed -i "s#target-dir = \"/verif/target\"#target-dir = \"$D/target\"#" "$D/harness/.cargo/config.toml"
